@@ -1,4 +1,4 @@
-//@ unit props=C02,C08,C12 tier=quick kind=unbounded timeout=240 funcs="<Constant as BitRepr>::write; <Verbatim as BitRepr>::write; <FixedLpc as BitRepr>::write" stubs="BitSink::{write, write_lsbs, write_twoc} -> append-only ideal bit string contracts [C11 Kani units]; Residual::write -> appends spec_bits [Kani c08_residual_write_*]" note="`EXPR.map_err(F)?` is accepted as is; bit-level header bytes related to the RFC type codes by bit_vector lemmas"
+//@ unit props=C02,C08,C12 tier=quick kind=unbounded timeout=240 funcs="<Constant as BitRepr>::write; <Verbatim as BitRepr>::write; <FixedLpc as BitRepr>::write; <Lpc as BitRepr>::write" stubs="BitSink::{write, write_lsbs, write_twoc} -> append-only ideal bit string contracts [C11 Kani units]; Residual::write -> appends spec_bits [Kani c08_residual_write_*]" note="`EXPR.map_err(F)?` is accepted as is; bit-level header bytes related to the RFC type codes by bit_vector lemmas"
 // Subframe writers against an ABSTRACT fallible sink, for ANY block length / predictor order:
 //   C02  CONSTANT = 0000000|0 ++ value;  VERBATIM = 0000001|0 ++ samples;  FIXED = 0001ooo|0 ++ warm-up
 //        ++ residual;  LPC = 01ooooo|0 (ooooo = order-1) ++ warm-up ++ (precision-1):4 ++ shift:5 ++
@@ -503,6 +503,252 @@ impl FixedLpc {
 //|         assert forall|x: Seq<bool>| is_prefix(d0 + body, x) implies is_prefix(d0, x) by {
 //|             lemma_prefix_trans(d0, d0 + body, x);
 //|         }
+//|     }
+//@end
+}
+
+pub struct QuantizedParameters {
+    pub coefs: Vec<i16>,
+    pub shift: i8,
+    pub precision: usize,
+}
+
+impl QuantizedParameters {
+    pub fn precision(&self) -> (r: usize)
+        ensures
+            r == self.precision,
+    {
+        self.precision
+    }
+
+    pub fn shift(&self) -> (r: i8)
+        ensures
+            r == self.shift,
+    {
+        self.shift
+    }
+
+    /// `coefs()` returns the first `order` coefficients as a Vec
+    #[verifier::external_body]
+    pub fn coefs(&self) -> (r: Vec<i16>)
+        ensures
+            r@ == self.coefs@,
+    {
+        unimplemented!()
+    }
+}
+
+pub struct Lpc {
+    pub parameters: QuantizedParameters,
+    pub warm_up: Vec<i32>,
+    pub residual: Residual,
+    pub bits_per_sample: u8,
+}
+
+/// RFC 9639 9.2.6: type byte 0b0_1ooooo_0 with ooooo = order - 1
+pub open spec fn lpc_head(order: int) -> u8 {
+    (64 + 2 * (order - 1)) as u8
+}
+
+/// the LPC subframe up to (not including) the residual
+pub open spec fn lpc_prefix_bits(l: &Lpc) -> Seq<bool> {
+    byte_bits(lpc_head(l.warm_up@.len() as int)) + samples_bits(l.warm_up@, l.bits_per_sample as nat)
+        + lsbs_bits(l.parameters.precision as int - 1, 4) + twoc_bits(l.parameters.shift as int, 5)
+        + coefs_bits(l.parameters.coefs@, l.parameters.precision as nat)
+}
+
+pub open spec fn lpc_bits(l: &Lpc) -> Seq<bool> {
+    lpc_prefix_bits(l) + l.residual.spec_bits()
+}
+
+/// the component invariant a verified LPC subframe satisfies (C18: constructors / verify)
+pub open spec fn lpc_wf(l: &Lpc) -> bool {
+    &&& 1 <= l.bits_per_sample <= 64
+    &&& 1 <= l.warm_up@.len() <= 32
+    &&& l.parameters.coefs@.len() == l.warm_up@.len()
+    &&& 1 <= l.parameters.precision <= 15
+    &&& 0 <= l.parameters.shift
+    &&& forall|j: int| 0 <= j < l.parameters.coefs@.len() ==> {
+        &&& -(pow2_int((l.parameters.precision - 1) as nat)) <= #[trigger] l.parameters.coefs@[j]
+        &&& l.parameters.coefs@[j] < pow2_int((l.parameters.precision - 1) as nat)
+    }
+}
+
+pub open spec fn pow2_int(k: nat) -> int
+    decreases k,
+{
+    if k == 0 { 1 } else { 2 * pow2_int((k - 1) as nat) }
+}
+
+/// whatever extends d0 ++ w also extends d0
+pub proof fn lemma_ext(d0: Seq<bool>, w: Seq<bool>)
+    ensures
+        forall|x: Seq<bool>| is_prefix(d0 + w, x) ==> is_prefix(d0, x),
+{
+    lemma_prefix_append(d0, w);
+    assert forall|x: Seq<bool>| is_prefix(d0 + w, x) implies is_prefix(d0, x) by {
+        lemma_prefix_trans(d0, d0 + w, x);
+    }
+}
+
+proof fn lemma_lpc_head(order: usize)
+    requires
+        1 <= order <= 32,
+    ensures
+        (0x40u8 | (((order - 1) as u8) << 1)) == lpc_head(order as int),
+{
+    let k = (order - 1) as u8;
+    assert(k <= 31);
+    assert((0x40u8 | (k << 1)) == 64 + 2 * k) by (bit_vector)
+        requires k <= 31;
+}
+
+proof fn lemma_shl_i16(p: usize)
+    requires
+        1 <= p <= 15,
+    ensures
+        (1i16 << ((p - 1) as usize)) == pow2_int((p - 1) as nat),
+        0 < (1i16 << ((p - 1) as usize)) <= 16384,
+{
+    reveal_with_fuel(pow2_int, 16);
+    assert((1i16 << 0usize) == 1) by (bit_vector);
+    assert((1i16 << 1usize) == 2) by (bit_vector);
+    assert((1i16 << 2usize) == 4) by (bit_vector);
+    assert((1i16 << 3usize) == 8) by (bit_vector);
+    assert((1i16 << 4usize) == 16) by (bit_vector);
+    assert((1i16 << 5usize) == 32) by (bit_vector);
+    assert((1i16 << 6usize) == 64) by (bit_vector);
+    assert((1i16 << 7usize) == 128) by (bit_vector);
+    assert((1i16 << 8usize) == 256) by (bit_vector);
+    assert((1i16 << 9usize) == 512) by (bit_vector);
+    assert((1i16 << 10usize) == 1024) by (bit_vector);
+    assert((1i16 << 11usize) == 2048) by (bit_vector);
+    assert((1i16 << 12usize) == 4096) by (bit_vector);
+    assert((1i16 << 13usize) == 8192) by (bit_vector);
+    assert((1i16 << 14usize) == 16384) by (bit_vector);
+}
+
+impl Lpc {
+    pub fn order(&self) -> (r: usize)
+        ensures
+            r == self.warm_up@.len(),
+    {
+        self.warm_up.len()
+    }
+
+    pub fn warm_up(&self) -> (r: &[i32])
+        ensures
+            r@ == self.warm_up@,
+    {
+        self.warm_up.as_slice()
+    }
+
+    pub fn parameters(&self) -> (r: &QuantizedParameters)
+        ensures
+            *r == self.parameters,
+    {
+        &self.parameters
+    }
+
+    pub fn residual(&self) -> (r: &Residual)
+        ensures
+            *r == self.residual,
+    {
+        &self.residual
+    }
+
+    pub fn bits_per_sample(&self) -> (r: usize)
+        ensures
+            r == self.bits_per_sample,
+    {
+        self.bits_per_sample as usize
+    }
+
+//@extract file=src/component/bitrepr.rs impl="impl BitRepr for Lpc {" fn="fn write"
+//@subst `fn write<S: BitSink>(&self, dest: &mut S) -> Result<(), OutputError<S>> {` => `fn write<S: BitSink>(&self, dest: &mut S) -> (res: Result<(), OutputError<S>>) {`
+//@subst `for ref_coef in &self.parameters().coefs() {` => `for ref_coef in it: &self.parameters().coefs() {`
+//@sig
+//|     requires
+//|         lpc_wf(self),
+//|     ensures
+//|         // C12 (no panic: the writer's own assert!s hold for a well-formed component) and C02/C08
+//|         res is Ok ==> final(dest).bits() == old(dest).bits() + lpc_bits(self),
+//|         is_prefix(old(dest).bits(), final(dest).bits()),
+//@before `dest.write(head_byte)`
+//|     let ghost d0 = dest.bits();
+//|     let ghost bps = self.bits_per_sample as nat;
+//|     let ghost prec = self.parameters.precision as nat;
+//|     let ghost h = byte_bits(lpc_head(self.warm_up@.len() as int));
+//|     proof {
+//|         lemma_lpc_head(self.warm_up.len());
+//|         lemma_prefix_refl(d0);
+//|         lemma_ext(d0, Seq::<bool>::empty());
+//|         assert(d0 + Seq::<bool>::empty() =~= d0);
+//|     }
+//@loop 1
+//|         invariant
+//|             lpc_wf(self),
+//|             bps == self.bits_per_sample as nat,
+//|             h == byte_bits(lpc_head(self.warm_up@.len() as int)),
+//|             i <= self.warm_up@.len(),
+//|             dest.bits() == d0 + (h + samples_bits(self.warm_up@.take(i as int), bps)),
+//|             d0 == old(dest).bits(),
+//@before `dest.write_twoc(self.warm_up()[i], self.bits_per_sample())`
+//|         proof {
+//|             let k = i as int;
+//|             assert(self.warm_up@.take(k + 1).drop_last() =~= self.warm_up@.take(k));
+//|             assert(self.warm_up@.take(k + 1).last() == self.warm_up@[k]);
+//|             let cur = h + samples_bits(self.warm_up@.take(k), bps);
+//|             let t = twoc_bits(self.warm_up@[k] as int, bps);
+//|             assert((d0 + cur) + t =~= d0 + (h + samples_bits(self.warm_up@.take(k + 1), bps)));
+//|             lemma_ext(d0, cur);
+//|         }
+//@before `assert!((self.parameters().precision() as u8) < 16u8);`
+//|     let ghost wall = h + samples_bits(self.warm_up@, bps);
+//|     proof {
+//|         assert(self.warm_up@.take(self.warm_up@.len() as int) =~= self.warm_up@);
+//|         assert(dest.bits() == d0 + wall);
+//|         lemma_ext(d0, wall);
+//|     }
+//@before `assert!(self.parameters().shift() >= 0);`
+//|     let ghost pbits = wall + lsbs_bits(prec as int - 1, 4);
+//|     proof {
+//|         assert(dest.bits() =~= d0 + pbits);
+//|         lemma_ext(d0, pbits);
+//|     }
+//@before `for ref_coef in it: &self.parameters().coefs() {`
+//|     let ghost qbits = pbits + twoc_bits(self.parameters.shift as int, 5);
+//|     proof {
+//|         assert(dest.bits() =~= d0 + qbits);
+//|         assert(self.parameters.coefs@.take(0) =~= Seq::<i16>::empty());
+//|         assert(qbits + coefs_bits(self.parameters.coefs@.take(0), prec) =~= qbits);
+//|     }
+//@loop 2
+//|         invariant
+//|             lpc_wf(self),
+//|             prec == self.parameters.precision as nat,
+//|             it.index@ <= self.parameters.coefs@.len(),
+//|             dest.bits() == d0 + (qbits + coefs_bits(self.parameters.coefs@.take(it.index@), prec)),
+//|             d0 == old(dest).bits(),
+//@before `debug_assert!(*ref_coef < (1 << (self.parameters().precision() - 1)));`
+//|         proof {
+//|             let k = it.index@;
+//|             lemma_shl_i16(self.parameters.precision);
+//|             assert(*ref_coef == self.parameters.coefs@[k]);
+//|             assert(self.parameters.coefs@.take(k + 1).drop_last() =~= self.parameters.coefs@.take(k));
+//|             assert(self.parameters.coefs@.take(k + 1).last() == *ref_coef);
+//|             let cur = qbits + coefs_bits(self.parameters.coefs@.take(k), prec);
+//|             let t = twoc_bits(*ref_coef as int, prec);
+//|             assert((d0 + cur) + t =~= d0 + (qbits + coefs_bits(self.parameters.coefs@.take(k + 1), prec)));
+//|             lemma_ext(d0, cur);
+//|         }
+//@before `self.residual().write(dest)`
+//|     proof {
+//|         assert(self.parameters.coefs@.take(self.parameters.coefs@.len() as int) =~= self.parameters.coefs@);
+//|         let call = qbits + coefs_bits(self.parameters.coefs@, prec);
+//|         assert(call =~= lpc_prefix_bits(self));
+//|         assert((d0 + call) + self.residual.spec_bits() =~= d0 + lpc_bits(self));
+//|         lemma_ext(d0, call);
 //|     }
 //@end
 }
